@@ -89,6 +89,18 @@ def materialise(spec, b):
     raise ValueError(spec)
 
 
+def _register(b, reg, n):
+    i = n["id"]
+    store = b.stores[n["store"]]
+    node = b.nodes[i]
+
+    def thunk():
+        fr, _ = _frames(), reg.add(node, store)
+        b.frames[("add", i)] = fr
+
+    _create(n.get("add_depth", 0), thunk)
+
+
 def build(world, with_registry=True, _holder=None):
     """Create Plan (and Registry) objects for one process lifetime."""
     import uberjob
@@ -174,14 +186,17 @@ def build(world, with_registry=True, _holder=None):
         for d in n.get("deps", ()):
             plan.add_dependency(b.nodes[d], b.nodes[i])
         if n.get("store") and kind != "src" and reg is not None:
-            store = b.stores[n["store"]]
-            node = b.nodes[i]
-
-            def thunk():
-                fr, _ = _frames(), reg.add(node, store)
-                b.frames[("add", i)] = fr
-
-            _create(n.get("add_depth", 0), thunk)
+            if world.get("defer_adds"):
+                continue
+            _register(b, reg, n)
+    if world.get("defer_adds") and reg is not None:
+        # registration order is independent of creation order
+        byid = ref.by_id(world)
+        order = world.get("add_order") or [n["id"] for n in world["nodes"]]
+        for i in order:
+            n = byid[i]
+            if n.get("store") and n["kind"] != "src":
+                _register(b, reg, n)
     for u, v in world.get("late_deps", ()):
         plan.add_dependency(b.nodes[u], b.nodes[v])
     for u, v in world.get("back_edges", ()):
@@ -267,6 +282,7 @@ class Runtime:
         self.on_call_start = []
         self.barrier = None
         self.seen_values = {}     # call id -> canon of args seen (last attempt)
+        self.on_death = None
 
     # ---- helpers ---------------------------------------------------------
     def _fire(self, kind):
@@ -283,6 +299,8 @@ class Runtime:
             self._fire("cut-" + kind)
             if self.cut_mode == "death":
                 self.disk.frozen = True
+                if self.on_death is not None:
+                    self.on_death()
                 self.sim.crash("death")
             raise CutError(f"cut at {kind} {key}")
 
@@ -359,7 +377,9 @@ class Runtime:
                 f = self._fault_for_call(nid, att)
                 if f is not None:
                     e = self._make_exc(f, f"call {nid} attempt {att}")
-                    self.raised.setdefault(nid, []).append(e)
+                    # (C16 with failing consumers: the harness must not keep the exception - and through its
+                    # traceback the call's arguments - alive)
+                    self.raised.setdefault(nid, []).append(None if self.cfg.get("no_keep_exc") else e)
                     self._fire("call-raise-" + f.get("exc", "E1"))
                     raise e
                 kw = list(kwargs.items())
@@ -382,6 +402,7 @@ class Runtime:
                 if isinstance(e, CutError):
                     self.raised.setdefault(nid, []).append(e)
                 sim.log("call-end", nid, att, "fail", type(e).__name__)
+                del e
                 raise
             sim.log("call-end", nid, att, "ok", canon(out))
             return out
@@ -493,6 +514,10 @@ class Runtime:
                     pass
                 t = self.disk.put(name, value, sim.time())
                 sim.log("store-effect", "write", name, canon(value), t)
+                fed = self.world["stores"][name].get("feeds")
+                if fed:
+                    owner = [m["id"] for m in self.world["nodes"] if m.get("store") == name][0]
+                    self._side_write(fed, ref.fed_value(owner, value))
                 self.cut_point("write-after", name)
                 if f is not None and f.get("when") == "after":
                     e = self._make_exc(f, f"write {name} (after effect)")
